@@ -116,4 +116,52 @@ Section MatchProofs.
         * left. exists b. exact Hab.
         * right. cbn in Hab. inversion Hab; subst. exists a, b. reflexivity.
   Qed.
+
+  (* the lifecycle criterion is about the SET of listed ids: order and repetitions do not matter *)
+  Definition set_lifecycles (f : filter) (l : option (list N)) : filter :=
+    {| f_kind := f_kind f; f_enabled := f_enabled f; f_at_load_time := f_at_load_time f; f_negate := f_negate f;
+       f_ecu := f_ecu f; f_apid := f_apid f; f_ctid := f_ctid f; f_vmm := f_vmm f;
+       f_payload := f_payload f; f_payload_regex := f_payload_regex f; f_ignore_case := f_ignore_case f;
+       f_payload_as_regex := f_payload_as_regex f; f_lmin := f_lmin f; f_lmax := f_lmax f; f_lifecycles := l |}.
+
+  Lemma existsb_same_set (x : N) l1 l2 :
+    (forall y, In y l1 <-> In y l2) -> existsb (N.eqb x) l1 = existsb (N.eqb x) l2.
+  Proof.
+    intros H. destruct (existsb (N.eqb x) l1) eqn:E1; destruct (existsb (N.eqb x) l2) eqn:E2; try reflexivity; exfalso.
+    - apply existsb_exists in E1. destruct E1 as [y [Hy Hxy]]. apply N.eqb_eq in Hxy. subst y.
+      assert (E : existsb (N.eqb x) l2 = true) by (apply existsb_exists; exists x; split; [apply H; exact Hy|apply N.eqb_refl]).
+      congruence.
+    - apply existsb_exists in E2. destruct E2 as [y [Hy Hxy]]. apply N.eqb_eq in Hxy. subst y.
+      assert (E : existsb (N.eqb x) l1 = true) by (apply existsb_exists; exists x; split; [apply H; exact Hy|apply N.eqb_refl]).
+      congruence.
+  Qed.
+
+  Lemma pass_lifecycles_same_set f l1 l2 m :
+    (forall y, In y l1 <-> In y l2) ->
+    pass_lifecycles (set_lifecycles f (Some l1)) m = pass_lifecycles (set_lifecycles f (Some l2)) m.
+  Proof.
+    intros H. unfold pass_lifecycles, set_lifecycles. cbn [f_lifecycles].
+    rewrite (existsb_same_set (m_lc m) l1 l2 H).
+    destruct l1 as [|a l1]; destruct l2 as [|b l2]; try reflexivity.
+    - exfalso. apply (proj2 (H b)). left. reflexivity.
+    - exfalso. apply (proj1 (H a)). left. reflexivity.
+  Qed.
+
+  Theorem matches_lifecycles_same_set f l1 l2 m :
+    (forall y, In y l1 <-> In y l2) ->
+    matches re (set_lifecycles f (Some l1)) m = matches re (set_lifecycles f (Some l2)) m.
+  Proof.
+    intros H. unfold matches. rewrite (pass_lifecycles_same_set f l1 l2 m H). reflexivity.
+  Qed.
+
+  (* membership itself: the criterion holds iff the list is empty or the message's lifecycle id is listed *)
+  Lemma pass_lifecycles_in f l m :
+    pass_lifecycles (set_lifecycles f (Some l)) m = true <-> (l = [] \/ In (m_lc m) l).
+  Proof.
+    unfold pass_lifecycles, set_lifecycles. cbn [f_lifecycles]. destruct l as [|a l].
+    - cbn. split; [intros _; left; reflexivity|reflexivity].
+    - cbn [negb andb]. rewrite negb_involutive. rewrite existsb_exists. split.
+      + intros [y [Hy Hxy]]. apply N.eqb_eq in Hxy. subst y. right. exact Hy.
+      + intros [H|H]; [discriminate|]. exists (m_lc m). split; [exact H|apply N.eqb_refl].
+  Qed.
 End MatchProofs.
